@@ -2,7 +2,7 @@
    The wall-clock clause (movetime / clocks) is a measurement in the correspondence run, not a theorem; a depth
    limit >= MAX_DEPTH is the recorded known finding (the loop below stops at MAX_DEPTH - 1). *)
 From Coq Require Import NArith ZArith List Bool.
-From Rawr Require Import Consts Bits Magic Position MoveGen MakeMove Eval TT Search MakeStages SearchFacts Closure MenCount EpRetro SearchBound GenLegal.
+From Rawr Require Import Consts Bits Magic Position MoveGen MakeMove Eval TT Search MakeStages SearchFacts Closure MenCount EpRetro SearchBound GenLegal SearchFinal.
 Import ListNotations.
 Local Open Scope Z_scope.
 
@@ -36,7 +36,17 @@ Theorem C14_scores_within_the_mate_bounds : forall (stopf : Stats -> bool) fuel 
   (forall i, In i (rr_infos r) -> - MATE_SCORE <= i_score i <= MATE_SCORE /\ - INF < i_score i < INF) /\ TBnd (ss_tt (rr_state r)).
 Proof. exact search_scores_within_the_mate_bounds. Qed.
 
+(* the same without "modulo fuel": the search returns (SearchTotal.v) and the result, the same for every sufficient fuel, has its
+   scores within the mate bounds and leaves an admissible table *)
+Theorem C14_search_always_reports_bounded_scores : forall (stopf : Stats -> bool) p hist tt,
+  InvSR p -> TBnd tt -> t_len tt <> 0%N -> 0 <= halfmoves p ->
+  exists r, (forall fuel, (ROOT_FUEL <= fuel)%nat -> root stopf fuel p hist tt = Some r)
+            /\ (forall i, In i (rr_infos r) -> - MATE_SCORE <= i_score i <= MATE_SCORE /\ - INF < i_score i < INF)
+            /\ TBnd (ss_tt (rr_state r)).
+Proof. exact search_always_reports_bounded_scores. Qed.
+
 Print Assumptions C14_iterations_in_order.
 Print Assumptions C14_nodes_limit_honoured.
 Print Assumptions C14_depth_limit_honoured.
 Print Assumptions C14_scores_within_the_mate_bounds.
+Print Assumptions C14_search_always_reports_bounded_scores.
